@@ -170,6 +170,14 @@ def run(rep):
     rng = random.Random(rep.seed)
     n = 700 if rep.tier == "quick" else 25000
     cases = [c for _, c in load_corpus(PID)] + [gen_case(rng) for _ in range(n)]
+    # small scope: every PAIR of map-rooted trees of at most 3 nodes (int / string / float atoms, lists, maps) as the two
+    # inputs - every kind clash, every shared / unshared key, every list relation at that size (quick: a sample)
+    small = [t for t in gen.enum_trees(3, [1, "x", 1.5], ["a", "b"], 2) if isinstance(t, dict) and t]
+    pairs = [(a, b) for a in small for b in small]
+    if rep.tier == "quick":
+        pairs = random.Random(rep.seed + 31).sample(pairs, 400)
+    cases += [{"inputs": [gen.deep(a), gen.deep(b)], "fmts": [rng.choice(FMTS), rng.choice(FMTS)], "small_scope": True} for a, b in pairs]
+    rep.extra["small_scope_pairs"] = len(pairs)
     nbad, mismatch = evaluate(rep, cases)
     from props.toolscommon import tool_cli_stage
     tool_cli_stage(rep, "bkli", random.Random(rep.seed + 909), 150 if rep.tier == "quick" else 5000)
